@@ -866,6 +866,9 @@ func execLine(line string) string {
 	if strings.HasPrefix(line, "C10 conc ") {
 		return execConc(line)
 	}
+	if strings.HasPrefix(line, "C10 par ") {
+		return execPar(line)
+	}
 	r, err := parseLine(line)
 	if err != nil {
 		return "bad-op"
@@ -888,6 +891,9 @@ func execLine(line string) string {
 func execRecord(line string) (string, string) {
 	if strings.HasPrefix(line, "C10 conc ") {
 		return line, execConc(line)
+	}
+	if strings.HasPrefix(line, "C10 par ") {
+		return line, execPar(line)
 	}
 	r, err := parseLine(line)
 	if err != nil {
